@@ -10,6 +10,16 @@ TRUST = ("TLC 1.8 and the TLA+ semantics; harness/absmap.py (gamma builds real o
          "alpha reads public props/paths/errors); the bounded universes stated in the evidence file")
 
 CHECKS = {
+ "C17": dict(
+    text="spec/MC_Seed.tla states non-interference (the outputs of a seeded run are a function of seed and schemas; the "
+         "interpreter configuration is a state component the generator model does not read, except at the listed "
+         "environment-reading draw sites) and selects schema sequences exercising every draw site. Each (seed, "
+         "sequence) is run through the module-level fake() after Random().set_seed(k), twice per process, in 4 (quick) "
+         "/ 8 (thorough) fresh interpreters with different PYTHONHASHSEED; spec/Trace_C17.tla decides equality within a "
+         "process and across configurations and that every recorded draw lies within its primitive's contract. The "
+         "model is thin here by design (DESIGN 10): the deciding observation is the cross-process comparison.",
+    design="7 C17", technique="TLA+ non-interference statement + TLC-selected cases; cross-process seeded runs "
+                              "trace-validated by TLC"),
  "C09": dict(
     text="TLC explores spec/MC_Regex.tla: regex ASTs built by constructor actions (atoms incl. ranges, negated classes "
          "and categories; capturing/non-capturing/named groups; alternation; greedy/lazy quantifiers incl. open-ended "
